@@ -666,8 +666,23 @@ impl Lcg {
     }
 }
 
-/// Slightly irregular ring of m points (fractions of the box) in the plane z = 1/2 about the axis x = y = 1/2.
-fn ring_fracs(m: usize, radius: f64) -> Vec<DVec3> {
+/// Irregular ring of m points (fractions of the box) near the plane z = 1/2 about the axis x = y = 1/2: angle, radius
+/// and height are all jittered, so that the ring is neither co-circular nor coplanar (a point and a circle always lie
+/// on a common sphere: an exact ring around an axis generator is a co-spherical set, i.e. the R5 class of C05, family
+/// B4 there).
+pub fn ring_fracs(m: usize, radius: f64) -> Vec<DVec3> {
+    (0..m)
+        .map(|i| {
+            let t = i as f64;
+            let a = 2. * std::f64::consts::PI * (t + 0.3) / m as f64 + 0.01 * (3. * t).sin();
+            let r = radius * (1. + 0.02 * (5. * t + 1.).sin());
+            v3(0.5 + r * a.cos(), 0.5 + r * a.sin(), 0.5 + 0.004 * (7. * t + 2.).sin())
+        })
+        .collect()
+}
+
+/// The exact (co-circular, coplanar) ring: only the angles are irregular.
+pub fn exact_ring_fracs(m: usize, radius: f64) -> Vec<DVec3> {
     (0..m)
         .map(|i| {
             let a = 2. * std::f64::consts::PI * (i as f64 + 0.3) / m as f64 + 0.01 * (3. * i as f64).sin();
@@ -718,18 +733,26 @@ pub fn bigcell_state(kind: &str, m: usize, b: &BoxSpec) -> State {
 pub fn bigcell_family(thorough: bool) -> Vec<State> {
     let mut out = vec![];
     let boxes = box_menu(false);
-    let rings: &[usize] = if thorough { &[5, 12, 16, 17, 24, 32, 33, 40, 64, 65, 72, 100] } else { &[5, 17, 33, 40] };
-    let shells: &[usize] = if thorough { &[20, 40, 63, 66, 70, 100, 130, 160] } else { &[30, 70] };
+    // 300: more than 256 planes / faces / clips in one cell and a face with more than 256 vertices (beyond any 8-bit counter)
+    let rings: &[usize] = if thorough { &[5, 12, 16, 17, 24, 32, 33, 40, 64, 65, 72, 100, 255, 256, 257, 300] } else { &[5, 17, 33, 40, 300] };
+    let shells: &[usize] = if thorough { &[20, 40, 63, 66, 70, 100, 130, 160, 250, 260, 300] } else { &[30, 70, 300] };
     for (bi, b) in boxes.iter().enumerate() {
         // the cubic box and the offset box (b1 is too flat for a ring of radius 0.3 to produce the intended shapes)
         if bi == 1 {
             continue;
         }
         for &m in rings {
+            // the largest sizes only in the cubic box
+            if m > 100 && bi != 0 {
+                continue;
+            }
             out.push(bigcell_state("axis", m, b));
             out.push(bigcell_state("prism", m, b));
         }
         for &m in shells {
+            if m > 160 && bi != 0 {
+                continue;
+            }
             out.push(bigcell_state("shell", m, b));
         }
     }
